@@ -113,6 +113,7 @@ PLANS = {
     ),
     'C01': dict(
         module='RucteProps.C01',
+        extra_modules=['RucteProps.C01Nodes'],
         theorems=['Ructe.C01.textLit_ascii', 'Ructe.C01.textLit_nonascii', 'Ructe.C01.lower_text', 'Ructe.C01.render_text'],
         runs=[dict(suite='parse', mix='examples,text,structured', n=dict(quick=4000, thorough=80000), projection='body',
                    tags=['C01'], literal_oracle=True),
@@ -138,7 +139,8 @@ PLANS = {
     ),
     'C13': dict(
         module='RucteProps.C13',
-        theorems=['Ructe.C13.signature_shape', 'Ructe.C13.content_exact', 'Ructe.C13.content_suffix_only', 'Ructe.C13.printParam_other', 'Ructe.C13.pinned_counterexamples'],
+        extra_modules=['RucteProps.C13Args'],
+        theorems=['Ructe.C13.signature_shape', 'Ructe.C13.content_exact', 'Ructe.C13.content_suffix_only', 'Ructe.C13.printParam_other', 'Ructe.C13.pinned_counterexamples','Ructe.C13.formalArgument_sound','Ructe.C13.formalArgument_has_colon','Ructe.C13.preamble_item_verbatim'],
         runs=[dict(suite='parse', mix='decl,examples,structured', n=dict(quick=4000, thorough=60000), projection='header', tags=['C13'])],
         correspondence='the printed signature (use lines, lifetime list, parameter lines) of every accepted template vs Ructe.fnHeader',
         rule='0..8 parameters over 16 type shapes incl. Content / ContentType / Contents / MyContent / &Content / Vec<Content>, 7 colon layouts, parameter names resembling internals, 0..3 use lines incl. renames/globs/nested braces; non-trivial = distinct accepted syntax trees',
